@@ -216,6 +216,12 @@ VIS = {
     'head(3)': lambda v: util.rows_of(petl.head(v, 3)),
     'islice(5)': lambda v: list(itertools.islice(iter(v), 6)),
     'wrap[2]': lambda v: petl.wrap(v)[2],
+    'wrap[1:] then 3 rows': lambda v: list(itertools.islice(iter(petl.wrap(v)[1:]), 3)),
+    'wrap[2:9]': lambda v: list(petl.wrap(v)[2:9]),
+    'wrap[1::2] then 3 rows': lambda v: list(itertools.islice(iter(petl.wrap(v)[1::2]), 3)),
+    'values[2:] then 3': lambda v: list(itertools.islice(iter(petl.values(v, 'f0')[2:]), 3)),
+    'data[1:] then 3': lambda v: list(itertools.islice(iter(petl.data(v)[1:]), 3)),
+    'cut-view[1:] then 2': lambda v: list(itertools.islice(iter(petl.cut(v, 'f0', 'f1')[1:]), 2)),
     'look-vrepr-truncate-width': lambda v: repr(petl.look(v, vrepr=str, truncate=3, width=40)),
     'look-simple-index-header': lambda v: repr(petl.look(v, style='simple', index_header=True, limit=3)),
     'see-vrepr-index-header': lambda v: repr(petl.see(v, vrepr=str, index_header=True)),
@@ -228,7 +234,8 @@ VIS_LIMIT = {'look-vrepr-truncate-width': 5, 'look-simple-index-header': 3, 'see
              'lookall-on-head': 4, 'look-simple': 5, 'look-minimal': 5, 'look-minimal-limit2': 2, 'lookstr-simple': 5, 'look-config-minimal': 5, 'look-config-limit': 2,
              'see-limit2': 2, 'display-html': 5,
              'look': 5, 'look-limit2': 2, 'lookstr': 5, 'see': 5, 'repr(wrap)': 5, 'str(wrap)': 5, '_repr_html_': 5, 'head(3)': 3, 'islice(5)': 5,
-             'wrap[2]': 2, 'look(cut(convert))': 5}
+             'wrap[2]': 2, 'look(cut(convert))': 5, 'wrap[1:] then 3 rows': 4, 'wrap[2:9]': 9, 'wrap[1::2] then 3 rows': 6, 'values[2:] then 3': 5,
+             'data[1:] then 3': 4, 'cut-view[1:] then 2': 3}
 
 
 # operators that keep the (f0:int, f1:text, f2:text) schema, so they can be chained in any order
